@@ -150,7 +150,7 @@ def coverage_counts(out):
 
 
 def judge(module, traces, rundir, consts="", shard=2000, jobs=NCPU, timeout=3000, heap="3g", extra_env=None,
-          spec="Spec", label=None):
+          spec="Spec", label=None, header=None):
     """Have TLC evaluate the clauses of spec/<module>.tla (a *Trace module) on `traces` (list of
     dicts, each with an integer 'tid').  Returns dict(V=[...], M=[...], N={clause: count}, judged=n).
     The trace module must define Spec, Post (POSTCONDITION printing <<"JUDGED", n>>) and read
@@ -165,7 +165,7 @@ def judge(module, traces, rundir, consts="", shard=2000, jobs=NCPU, timeout=3000
     def one(k):
         f = rundir / f"{label}-shard{k}.json"
         with open(f, "w") as fh:
-            json.dump(shards[k], fh, separators=(",", ":"))
+            json.dump(shards[k] if header is None else {"hdr": header, "traces": shards[k]}, fh, separators=(",", ":"))
         r = tlc(module, cfg, rundir, name=f"{label}-shard{k}", workers=1, env={"TRACE_FILE": str(f), **(extra_env or {})},
                 timeout=timeout, heap=heap)
         return r
